@@ -32,7 +32,7 @@ PROP = "C20"
 READY = False
 TECHNIQUE = (
     "CFG post-dominance of the raw filter over the render call in every front end, call-graph reachability of "
-    "nodes.raw constructions and of file-system reads, guard dominance in the include mock, alias checks on settings/document"
+    "nodes.raw constructions, registry re-attachment and file-system reads, guard dominance in the include mock, alias checks on settings/document, sandboxed template environments"
 )
 
 META = {
@@ -43,16 +43,25 @@ META = {
         "the call in the callers, or at the end of the renderer's render(). The filter is a branch taken whenever the document's "
         "raw_enabled is false (the test is evaluated three-valued with the switch off and everything else unknown: a broader test such "
         "as `not (raw and other)` is accepted, an extra conjunct is a violation; truth or ==/!= tests; an identity test `is False` is "
-        "rejected because 0 is a legal value), looping over all docutils.nodes.raw of the whole document (traverse/findall, no descend=False), and on every "
+        "rejected because 0 is a legal value), looping over all docutils.nodes.raw of the whole document (traverse/findall, no descend=False; either one loop over the "
+        "document or a sweep `for root in (document, *document.footnotes, ...)` whose roots include the document), and on every "
         "iteration replacing or removing the node - a skip is accepted only for detached nodes or a tautological type test, any other "
         "skip (by the node's content, a local derived from it, or configuration) is a violation; nodes are not removed while the lazy "
         "findall() generator walks the tree; the replacement can never be None (Element.replace(old, None) is a no-op: nullable "
         "helpers such as create_warning need a guard with a fallback), is a warning-level reporter message, and is created inside the "
         "loop - one message object per refused node (a hoisted message reports N refusals once and, being one node under several "
-        "parents, makes docutils' FilterMessages transform raise when report_level > 2). "
+        "parents, makes docutils' FilterMessages transform raise when report_level > 2). The replacement may be written as "
+        "`parent.insert(i, message)` + `node.parent.remove(node)`. Message placement: a system_message is a body element, so it is put "
+        "beside the outermost TextElement around the raw node (climbing loop `while isinstance(a.parent, TextElement): a = a.parent`), "
+        "added to the document, or replaces the node in place only under `not isinstance(node.parent, TextElement)`; an unguarded "
+        "in-place replacement puts the message into titles/paragraphs (document title, toc) and is a violation. "
         "R2: no function reachable from a registered transform / post-transform / Sphinx event handler, or from what the entry calls "
         "after the filter, constructs nodes.raw (directly, through an alias or a package subclass); every construction is in a "
         "render-phase function or unreachable. Reachability includes the renderer's dynamic dispatch wherever it is written. "
+        "Every document registry that the renderer fills (note_footnote -> footnotes, note_autofootnote -> autofootnotes, ...) and "
+        "from which a transform later attaches nodes to the document (CollectFootnotes) is walked by the filter too - a footnote "
+        "rendered into directive content that the directive discards is detached when the filter runs - unless the transform skips "
+        "detached nodes. "
         "R3: in the include mock every call that reads the file system (directly or through callees) is dominated by the "
         "file_insertion_enabled truth test whose failing branch refuses at warning level (raise DirectiveError(2) or return a "
         "reporter warning; helper-held or branch-swapped guards are followed); every other file-system read reachable from "
@@ -62,19 +71,25 @@ META = {
         "complete fill or at least both switches copied (a setdefault merge or fresh defaults are violations); MockRSTParser passes its "
         "document on; every mock handed to directives/roles exposes the renderer's real document and wraps the running renderer. "
         "R5: no store, setattr, override-dict entry or keyword argument in the package gives either switch a value other than False "
-        "(copying the same switch from another settings object is allowed)."
+        "(copying the same switch from another settings object is allowed). "
+        "R6: every jinja2 environment constructed in code reachable from a front end's render (the substitution extension evaluates "
+        "expressions written in the document) is SandboxedEnvironment/ImmutableSandboxedEnvironment or a package subclass; "
+        "jinja2.Environment, NativeEnvironment or jinja2.Template there is a violation (expressions reach open() and the settings "
+        "object through __globals__)."
     ),
     "not_decided": (
         "that third-party directives/roles honour the settings they are shown (docutils' raw/include/csv-table and Sphinx's "
         "literalinclude do, by reading); that every raw node built during rendering is attached to the tree when the filter runs; "
         "the writer's own file "
         "access (image embedding consults file_insertion_enabled itself); file reads that are not made by a directive (the inventory "
-        "loader, fed from global-only configuration, is listed); a filter written as a side-effect comprehension (ANALYSIS-ERROR)"
+        "loader, fed from global-only configuration, is listed); a filter written as a side-effect comprehension (ANALYSIS-ERROR); "
+        "markup carried by nodes other than nodes.raw (e.g. attribute names of nodes.meta); what jinja2's sandbox itself lets through"
     ),
     "trusted_base": [
         "CPython ast",
         "call graph special edges (DESIGN E3) plus the module's own dispatch edges for `<x>.rules[...]`, `<x>.rules.get(...)`, getattr(<x>, f'render_...')",
         "catalogue of file-system read calls (open, io.open, codecs.open, urlopen, FileInput, .read_text/.read_bytes/.open/.read/.readlines)",
+        "docutils facts: note_footnote/note_autofootnote/note_symbol_footnote/note_citation fill document.footnotes/autofootnotes/symbol_footnotes/citations; system_message is a body element; jinja2.sandbox.SandboxedEnvironment refuses unsafe attribute access",
         "docutils facts: Element.replace(old, None) is a no-op; findall() is a lazy generator, traverse() returns a list; the switches default to the ints 1/0",
     ],
     "assumptions": [
@@ -615,6 +630,7 @@ class Filter:
         self.oks: list[tuple[str, str, ast.AST]] = []
         self.loop: ast.For | None = None
         self.lazy = False
+        self.swept_registries: set[str] = set()
         self.notes: list[tuple[str, ast.AST]] = []
         self._analyse()
 
@@ -675,7 +691,7 @@ class Filter:
         self.loop = lp
         self.lazy = lazy
         anchor: ast.AST = lp
-        if not cfg.postdominates(lp, edge):
+        if not cfg.postdominates(lp, edge) and self._root_loop(lp, recv) is None:
             # `nodes_ = doc.findall(raw); if nodes_: ...; for n in nodes_:` - skipping the loop for an empty collection is harmless
             it_name = lp.iter.id if isinstance(lp.iter, ast.Name) else None
             cur: ast.AST = lp
@@ -696,7 +712,24 @@ class Filter:
             if anchor is lp or not cfg.postdominates(anchor, edge):
                 raise Unsupported(f"{fi.module.site(lp)}: the raw loop is not reached on every path of the raw-disabled branch")
         cov_problem = None
-        if unparse(recv) != self.root:
+        self.swept_registries: set[str] = set()
+        outer = self._root_loop(lp, recv)
+        if outer is not None:
+            # `for root in (document, *document.footnotes, ...): for node in root.findall(nodes.raw):`
+            elts = self._roots_expr.elts
+            plain = [unparse(_deref(e_, fi)) for e_ in elts if not isinstance(e_, ast.Starred)]
+            for e_ in elts:
+                if isinstance(e_, ast.Starred):
+                    for x in ast.walk(e_.value):
+                        if isinstance(x, ast.Attribute) and unparse(x.value) == self.root:
+                            self.swept_registries.add(x.attr)
+            if self.root not in plain:
+                cov_problem = f"the swept roots `{short(self._roots_expr, 60)}` do not include the whole document `{self.root}`"
+            if anchor is lp:
+                anchor = outer
+                if not cfg.postdominates(outer, edge):
+                    raise Unsupported(f"{fi.module.site(outer)}: the sweep over the roots is not reached on every path of the raw-disabled branch")
+        elif unparse(recv) != self.root:
             cov_problem = f"the filter enumerates raw nodes of `{short(recv, 40)}`, not of the whole document `{self.root}`"
         for kw in call.keywords:
             if kw.arg == "descend" and is_const(kw.value, False):
@@ -712,6 +745,21 @@ class Filter:
         else:
             self.oks.append(("coverage", f"loops over every nodes.raw below {self.root}", lp))
         self._loop_body(lp, cfg)
+
+    def _root_loop(self, lp: ast.For, recv: ast.expr | None) -> ast.For | None:
+        """The enclosing `for <recv> in (<literal tuple/list of roots>)` when the raw loop walks one root per iteration."""
+        if not isinstance(recv, ast.Name):
+            return None
+        for a in _ancestors_local(lp):
+            if isinstance(a, ast.For) and isinstance(a.target, ast.Name) and a.target.id == recv.id:
+                it_ = _deref(a.iter, self.fi)
+                if isinstance(it_, (ast.Tuple, ast.List)) and it_.elts and not a.orelse:
+                    self._roots_expr = it_
+                    # the inner loop must run in every iteration of the outer one
+                    if a.body and (a.body[0] is lp or lp in a.body) and not any(isinstance(n, (ast.Break, ast.Continue, ast.Return)) and not any(x is lp for x in _ancestors_local(n)) for n in walk_local(a)):
+                        return a
+                return None
+        return None
 
     def _raw_iter(self, lp: ast.For):
         """(receiver, traversal call, lazy) when the loop iterates over all nodes.raw of a receiver.
@@ -758,6 +806,57 @@ class Filter:
                                     out.add(x.id)
         return out
 
+    def _is_text_element(self, e: ast.expr | None) -> bool:
+        if isinstance(e, ast.Tuple):
+            return any(self._is_text_element(x) for x in e.elts)
+        d = dotted(e) if e is not None else None
+        return bool(d) and self.fi.module.resolve(d) == "docutils.nodes.TextElement"
+
+    def _placement(self, call: ast.Call, kind: str, v: str, lp: ast.For, cfg) -> None:
+        """The message must end up beside, not inside, a text element (title, paragraph, ...): inline raw nodes
+        (inline HTML, hard break, strikethrough) have a TextElement parent, and a system_message put there becomes
+        part of the title/paragraph text (document title, table of contents, astext())."""
+        fi = self.fi
+        st = cfg.stmt_of(call)
+        f = call.func
+        holder = f.value if kind == "insert" else (f.value if f.attr == "replace" else ast.Attribute(value=f.value, attr="parent", ctx=ast.Load()))  # type: ignore[union-attr]
+        text = unparse(holder)
+
+        def not_text_guard(name: str) -> bool:
+            for t, pol in cfg.guards(st):
+                if not pol and isinstance(t, ast.Call) and dotted(t.func) == "isinstance" and len(t.args) == 2 and unparse(t.args[0]) == f"{name}.parent" and self._is_text_element(t.args[1]):
+                    return True
+            return False
+
+        if text == self.root:
+            self.oks.append(("message-placement", f"the message is added to the document `{self.root}` itself", call))
+            return
+        if not (isinstance(holder, ast.Attribute) and holder.attr == "parent" and isinstance(holder.value, ast.Name)):
+            raise Unsupported(f"{fi.module.site(call)}: cannot tell where `{short(call, 50)}` puts the message")
+        a = holder.value.id
+        if a == v:
+            if not_text_guard(v):
+                self.oks.append(("message-placement", "in-place replacement only where the parent is not a text element", call))
+            else:
+                self.problems.append(("message-placement", f"`{short(call, 60)}` puts the warning where the raw node was: for inline raw nodes (inline HTML, hard line break, strikethrough) that is inside a title or paragraph, whose text (document title, table of contents, astext()) then contains the system message", call))
+            return
+        # a climbing variable: A = v; while isinstance(A.parent, TextElement): A = A.parent
+        climbs = [
+            w_ for w_ in walk_local(lp)
+            if isinstance(w_, ast.While)
+            and isinstance(w_.test, ast.Call) and dotted(w_.test.func) == "isinstance" and len(w_.test.args) == 2
+            and unparse(w_.test.args[0]) == f"{a}.parent" and self._is_text_element(w_.test.args[1])
+            and any(isinstance(b_, ast.Assign) and unparse(b_.targets[0]) == a and unparse(b_.value) == f"{a}.parent" for b_ in w_.body)
+            and not w_.orelse
+        ]
+        starts = [n for n in walk_local(lp) if isinstance(n, ast.Assign) and len(n.targets) == 1 and unparse(n.targets[0]) == a and unparse(n.value) == v]
+        if climbs and starts and cfg.dominates(climbs[0], st) and cfg.dominates(starts[0], climbs[0]):
+            self.oks.append(("message-placement", f"the message goes next to `{a}`, the outermost text element around the raw node (or the node itself)", call))
+        elif starts and not climbs:
+            self.problems.append(("message-placement", f"`{short(call, 60)}` inserts the warning into `{a}.parent`, and `{a}` is the raw node itself: for inline raw nodes that is inside a title or paragraph, whose text then contains the system message", call))
+        else:
+            raise Unsupported(f"{fi.module.site(call)}: cannot tell which node `{a}` is when the message is inserted")
+
     def _loop_body(self, lp: ast.For, cfg) -> None:
         fi = self.fi
         if not isinstance(lp.target, ast.Name):
@@ -781,7 +880,24 @@ class Filter:
                 muts.append((c, "remove", None))
         if not muts:
             raise Unsupported(f"{fi.module.site(lp)}: the raw filter loop neither replaces nor removes `{v}` in a recognised form")
-        stmts = {id(cfg.stmt_of(c)) for c, _, _ in muts}
+        # `parent.insert(i, W)` / `.append(W)` of a message + removal of the node is a replacement written in two steps
+        removal_stmts = {id(cfg.stmt_of(c)) for c, _, _ in muts}  # where the raw node actually leaves its parent
+        inserts = []
+        for c in calls_in(lp, into_lambdas=False):
+            f = c.func
+            if isinstance(f, ast.Attribute) and f.attr in ("insert", "append") and c.args:
+                wx = c.args[-1] if f.attr == "append" else (c.args[1] if len(c.args) > 1 else None)
+                if wx is not None and _levels(wx, fi, self.corpus) is not None and _nullability(wx, fi, self.corpus)[0] != "unknown":
+                    inserts.append((c, "insert", wx))
+        if inserts and any(kind == "remove" for _, kind, _ in muts):
+            ins_stmts = {id(cfg.stmt_of(c)) for c, _, _ in inserts}
+            if cfg.paths_avoiding(("T", lp), lp, lambda n: id(n) in ins_stmts) and not cfg.paths_avoiding(("T", lp), lp, lambda n: id(n) in removal_stmts):
+                self.notes.append(("on some iterations the raw node is removed without a message being inserted", inserts[0][0]))
+            self.removers = [c for c, kind, _ in muts if kind == "remove"]
+            muts = [m for m in muts if m[1] != "remove"] + inserts
+        else:
+            self.removers = [c for c, kind, _ in muts if kind == "remove"]
+        stmts = removal_stmts
         if cfg.paths_avoiding(("T", lp), lp, lambda n: id(n) in stmts):
             # some iteration leaves the node in place.  Harmless only when the node is detached (`v.parent is None`)
             # or the test is a tautological type check; any other skip lets an attached raw node survive.
@@ -789,7 +905,7 @@ class Filter:
             done = False
             # skipped when the replacement is None?
             for _c, kind_, new_ in muts:
-                if kind_ == "replace" and isinstance(new_, ast.Name) and any(any(isinstance(x, ast.Name) and x.id == new_.id for x in ast.walk(t)) for t in all_tests):
+                if kind_ in ("replace", "insert") and isinstance(new_, ast.Name) and any(any(isinstance(x, ast.Name) and x.id == new_.id for x in ast.walk(t)) for t in all_tests):
                     nb, why_nb = _nullability(_deref(new_, fi), fi, self.corpus)
                     if nb == "maybe":
                         self.problems.append(("replacement-not-none", f"the raw node is only replaced when `{new_.id}` is not None, and it can be None ({why_nb}): in that case the node is neither replaced nor removed and stays in the document", _c))
@@ -811,15 +927,19 @@ class Filter:
         else:
             self.oks.append(("every-node", f"each raw node is replaced/removed on every iteration ({len(muts)} mutation site(s))", muts[0][0]))
         # removal (or list-splicing) while docutils' lazy findall() generator is walking the parent's child list
-        removers = [c for c, kind, _ in muts if kind == "remove"]
+        removers = self.removers
         if self.lazy and removers:
             self.problems.append(("lazy-iteration", f"`{short(removers[0], 50)}` shrinks the parent's child list while the lazy findall() generator is iterating over it: the sibling that follows a removed node is never visited (a hard break is two adjacent raw nodes; inline HTML right after a hard break) and stays in the document", removers[0]))
         elif self.lazy:
             self.oks.append(("lazy-iteration", "lazy findall() traversal, but nodes are replaced one-for-one (child lists keep their length)", lp))
         else:
             self.oks.append(("lazy-iteration", "the raw nodes are collected into a list before the tree is modified", lp))
+        # where the message goes: a system_message is a body element and must not become a child of a text element
+        for call, kind, new in muts:
+            if kind in ("replace", "insert"):
+                self._placement(call, kind, v, lp, cfg)
         # what replaces it
-        any_replace = any(kind == "replace" for _, kind, _ in muts)
+        any_replace = any(kind in ("replace", "insert") for _, kind, _ in muts)
         for call, kind, new in muts:
             if kind == "remove":
                 if any_replace:
@@ -839,7 +959,10 @@ class Filter:
             )
             nullable, why_null = ("never", "") if guarded else _nullability(w, fi, self.corpus)
             if nullable == "maybe":
-                self.problems.append(("replacement-not-none", f"the replacement `{short(w, 60)}` can be None ({why_null}); docutils' Element.replace(old, None) does nothing, so the raw node stays in the document and no refusal is reported", w))
+                if kind == "insert":
+                    self.problems.append(("replacement-not-none", f"the inserted message `{short(w, 60)}` can be None ({why_null}): the refusal is then not reported and None becomes a child of the parent node", w))
+                else:
+                    self.problems.append(("replacement-not-none", f"the replacement `{short(w, 60)}` can be None ({why_null}); docutils' Element.replace(old, None) does nothing, so the raw node stays in the document and no refusal is reported", w))
                 continue
             if nullable == "unknown":
                 raise Unsupported(f"{fi.module.site(call)}: cannot tell whether the replacement `{short(w, 50)}` can be None")
@@ -1046,6 +1169,7 @@ def r1_filter_postdominates(corpus: Corpus, rep: Report, tier: str):
             rep.violation("C20.R1", f"{where.fq}|raw filter|{aspect}", where.module.site(node), msg)
         for msg, node in flt.notes:
             rep.listed("C20.R1", f"{where.fq}|raw filter|note|{short(node, 40)}", where.module.site(node), msg)
+    corpus._cache["c20-filters"] = list(analysed.values())
     rep.expect_min("C20.R1", 2, "front-end entries (docutils and Sphinx parsers)")
 
 
@@ -1141,6 +1265,71 @@ def _raw_constructions(corpus: Corpus) -> list[tuple[FunctionInfo, ast.Call]]:
     return out
 
 
+REGISTRY_OF_NOTE = {
+    "note_footnote": "footnotes",
+    "note_autofootnote": "autofootnotes",
+    "note_symbol_footnote": "symbol_footnotes",
+    "note_citation": "citations",
+}
+
+
+def _registered_nodes_swept(corpus: Corpus, rep: Report, late: list[tuple[FunctionInfo, str]], render_reach: dict[str, list[str]]) -> None:
+    """A node the renderer registers with the document (note_footnote -> document.footnotes, ...) can be rendered into
+    a temporary parent that a directive then drops; if a later transform attaches the registered nodes to the document,
+    their raw children reach the output unless the filter also walks that registry (or the transform skips detached nodes)."""
+    by_fq = {f.fq: f for f in corpus.all_functions()}
+    filled: dict[str, str] = {}
+    for fq in render_reach:
+        f = by_fq.get(fq)
+        if f is None:
+            continue
+        for c in _own_calls(f):
+            if isinstance(c.func, ast.Attribute) and c.func.attr in REGISTRY_OF_NOTE and unparse(c.func.value).endswith("document"):
+                filled.setdefault(REGISTRY_OF_NOTE[c.func.attr], f"{f.qualname} ({f.module.site(c)})")
+    reattached: dict[str, tuple[FunctionInfo, ast.AST]] = {}
+    for ent, _why in late:
+        for fq in _reach(corpus, [ent]):
+            f = by_fq.get(fq)
+            if f is None or f.is_lambda:
+                continue
+            attaches = any(
+                (isinstance(n, ast.AugAssign) and isinstance(n.op, ast.Add) and unparse(n.target).endswith("document"))
+                or (isinstance(n, ast.Call) and isinstance(n.func, ast.Attribute) and n.func.attr in ("append", "insert", "extend") and unparse(n.func.value).endswith("document"))
+                for n in f.local_nodes()
+            )
+            if not attaches:
+                continue
+            skips_detached = any(isinstance(n, ast.While) and ".parent" in unparse(n.test) for n in f.local_nodes())
+            for n in f.local_nodes():
+                if isinstance(n, ast.Attribute) and n.attr in REGISTRY_OF_NOTE.values() and unparse(n.value).endswith("document") and isinstance(n.ctx, ast.Load):
+                    if not skips_detached:
+                        reattached.setdefault(n.attr, (f, n))
+    required = sorted(set(filled) & set(reattached))
+    filters = corpus._cache.get("c20-filters")
+    if filters is None:
+        return  # R1 could not analyse the filters (reported there)
+    for reg in required:
+        f, n = reattached[reg]
+        for flt in filters:
+            k = f"{flt.fi.fq}|raw filter|also sweeps document.{reg}"
+            site = flt.fi.module.site(flt.loop or flt.ifnode)
+            if reg in flt.swept_registries:
+                rep.ok("C20.R2", k, site, f"registered by {filled[reg]}, re-attached by {f.qualname}")
+            else:
+                rep.violation(
+                    "C20.R2",
+                    k,
+                    site,
+                    f"nodes registered in document.{reg} (by {filled[reg]}) are attached to the document by {f.qualname} after the raw filter has run, "
+                    f"but the filter only walks the tree: a footnote definition inside directive content that the directive discards (e.g. a {{table}} body that is not a table) "
+                    "is detached when the filter runs and comes back, raw children included, when footnotes are collected",
+                    [f"{f.fq} reads document.{reg} ({f.module.site(n)})"],
+                )
+    for reg in sorted(set(reattached) - set(filled)):
+        f, n = reattached[reg]
+        rep.listed("C20.R2", f"document.{reg}|re-attached by {f.qualname}", f.module.site(n), "the renderer never registers nodes there (no note_* call in the render phase)")
+
+
 @rule("C20.R2")
 def r2_no_late_raw(corpus: Corpus, rep: Report, tier: str):
     rep.rule("C20.R2", "nothing reachable after the raw filter (transforms, post-transforms, calls after the filter) constructs nodes.raw; every construction is in a render-phase function or unreachable")
@@ -1211,6 +1400,8 @@ def r2_no_late_raw(corpus: Corpus, rep: Report, tier: str):
             if fi.fq in owner_reach:
                 continue  # already reported above
             rep.listed("C20.R2", k, fi.module.site(c), "not reachable from any front end, transform or directive")
+    # (c) nodes that sit in a document registry and are attached to the tree only later must be swept as well
+    _registered_nodes_swept(corpus, rep, late, render_reach)
     if n_render < 3:
         rep.error("C20.R2", f"expected the render-phase constructions of nodes.raw (hard break, strikethrough, HTML), found {n_render}")
     rep.expect_min("C20.R2", 8, "late entry points (>= 4 transforms) plus render-phase constructions (>= 4)")
@@ -1930,7 +2121,70 @@ def _where(n: ast.AST, m) -> str:
     return f.fq if f is not None else m.name
 
 
-RULES = [r1_filter_postdominates, r2_no_late_raw, r3_file_read_dominance, r4_shared_settings_real_documents, r5_switches_are_read_only]
+# ---------------------------------------------------------------------------
+# R6 document-supplied template expressions run sandboxed
+
+UNSAFE_TEMPLATE = {
+    "jinja2.Environment": "jinja2.Environment",
+    "jinja2.environment.Environment": "jinja2.Environment",
+    "jinja2.Template": "jinja2.Template (uses the shared, unsandboxed environment)",
+    "jinja2.environment.Template": "jinja2.Template (uses the shared, unsandboxed environment)",
+    "jinja2.nativetypes.NativeEnvironment": "jinja2 NativeEnvironment",
+}
+SAFE_TEMPLATE = {"jinja2.sandbox.SandboxedEnvironment", "jinja2.sandbox.ImmutableSandboxedEnvironment"}
+
+
+@rule("C20.R6")
+def r6_templates_sandboxed(corpus: Corpus, rep: Report, tier: str):
+    rep.rule("C20.R6", "every template environment that evaluates expressions taken from the document (substitutions) is jinja2's SandboxedEnvironment: a plain Environment lets `{{ x.__globals__[...] }}` reach open() and the settings object")
+    fes, _ = front_ends(corpus)
+    reach: dict[str, list[str]] = {}
+    for fe in fes:
+        rm = corpus.lookup_method(fe.renderer, "render")
+        if rm is not None:
+            for fq, chain in _reach(corpus, [rm]).items():
+                reach.setdefault(fq, chain)
+    safe = set(SAFE_TEMPLATE)
+    for ci in corpus.all_classes():  # package subclasses of a sandboxed environment
+        if any(b in safe for b in ci.bases):
+            safe.add(f"{ci.module.name}.{ci.name}")
+    n = 0
+    for fi in corpus.all_functions():
+        for c in _own_calls(fi):
+            d = dotted(c.func)
+            full = fi.module.resolve(d) if d else ""
+            if not full.startswith("jinja2.") and full not in safe:
+                continue
+            last = full.rsplit(".", 1)[-1]
+            if full not in safe and full not in UNSAFE_TEMPLATE and not last.endswith(("Environment", "Template")):
+                continue
+            k = f"{fi.fq}|{short(c.func, 50)}(...)"
+            site = fi.module.site(c)
+            owner = fi
+            while owner.parent_func is not None:
+                owner = owner.parent_func
+            if owner.fq not in reach and fi.fq not in reach:
+                rep.listed("C20.R6", k, site, "not reachable from a front end's render (templates there do not come from a parsed document)")
+                continue
+            n += 1
+            if full in safe:
+                rep.ok("C20.R6", k, site, f"{last}: attribute access to internals (__globals__, __builtins__, ...) is refused")
+            elif full in UNSAFE_TEMPLATE:
+                rep.violation(
+                    "C20.R6",
+                    k,
+                    site,
+                    f"{UNSAFE_TEMPLATE[full]} evaluates expressions written in the document without a sandbox: "
+                    "`{{ lipsum.__globals__[\"__builtins__\"][\"open\"](path).read() }}` inserts a file although file_insertion_enabled is false, "
+                    "and an exec() through the same route switches document.settings.raw_enabled back on",
+                    reach.get(fi.fq, reach.get(owner.fq, [])),
+                )
+            else:
+                raise Unsupported(f"{site}: unknown jinja2 environment class `{full}`")
+    rep.expect_min("C20.R6", 1, "the substitution environment in render_substitution")
+
+
+RULES = [r1_filter_postdominates, r2_no_late_raw, r3_file_read_dominance, r4_shared_settings_real_documents, r5_switches_are_read_only, r6_templates_sandboxed]
 
 
 # ---------------------------------------------------------------------------
@@ -1940,6 +2194,20 @@ RULES = [r1_filter_postdominates, r2_no_late_raw, r3_file_read_dominance, r4_sha
 def _reindent(text: str, extra: str) -> str:
     lines = text.split("\n")
     return "\n".join([lines[0]] + [(extra + l if l.strip() else l) for l in lines[1:]])
+
+
+def _filter_parts(fi: FunctionInfo, flt: ast.If) -> dict:
+    """The pieces of a raw filter of today's shape, for the mutant generator (None where absent)."""
+    inside = lambda n: flt.lineno <= getattr(n, "lineno", 0) <= flt.end_lineno  # noqa: E731
+    loop = find_node(fi, lambda n: isinstance(n, ast.For) and inside(n) and "nodes.raw" in unparse(n.iter))
+    outer = find_node(fi, lambda n: isinstance(n, ast.For) and inside(n) and isinstance(n.iter, (ast.Tuple, ast.List)) and loop is not None and any(x is loop for x in ast.walk(n)))
+    v = loop.target.id if loop is not None and isinstance(loop.target, ast.Name) else None
+    wst = find_node(fi, lambda n: isinstance(n, ast.Assign) and inside(n) and isinstance(n.value, ast.Call) and isinstance(n.value.func, ast.Attribute) and n.value.func.attr == "warning" and unparse(n.value.func.value).endswith("reporter"))
+    ins = find_node(fi, lambda n: isinstance(n, ast.Expr) and inside(n) and isinstance(n.value, ast.Call) and isinstance(n.value.func, ast.Attribute) and n.value.func.attr in ("insert", "append") and wst is not None and unparse(n.value.args[-1]) == unparse(wst.targets[0]))
+    rm = find_node(fi, lambda n: isinstance(n, ast.Expr) and inside(n) and isinstance(n.value, ast.Call) and v is not None and unparse(n.value.func) == f"{v}.parent.remove")
+    rep_ = find_node(fi, lambda n: isinstance(n, ast.Expr) and inside(n) and isinstance(n.value, ast.Call) and v is not None and unparse(n.value.func) in (f"{v}.parent.replace", f"{v}.replace_self"))
+    climb = find_node(fi, lambda n: isinstance(n, ast.While) and inside(n) and "TextElement" in unparse(n.test))
+    return {"loop": loop, "outer": outer, "v": v, "wst": wst, "ins": ins, "rm": rm, "replace": rep_, "climb": climb}
 
 
 def mutants(corpus: Corpus):
@@ -1956,7 +2224,7 @@ def mutants(corpus: Corpus):
     else:
         ind = indent_of(parse, flt)
         # 1. filter switched off
-        out.append(Mutant("c20-filter-dropped", "C20.R1", dm.rel, splice(dm.src, flt.test, "False"), expect="Parser.parse|raw filter after", canary=True))
+        out.append(Mutant("c20-filter-dropped", "C20.R1", dm.rel, splice(dm.src, flt.test, "False"), expect="Parser.parse|raw filter after"))
         # 2. early return between render and filter
         seg = segment(dm.src, render_st)
         out.append(Mutant("c20-return-before-filter", "C20.R1", dm.rel, splice(dm.src, render_st, seg + f"\n{ind}if not document.children:\n{ind}    return"), expect="Parser.parse|raw filter after"))
@@ -1972,10 +2240,17 @@ def mutants(corpus: Corpus):
         wst = find_node(parse, lambda n: isinstance(n, ast.Assign) and isinstance(n.value, ast.Call) and isinstance(n.value.func, ast.Attribute) and n.value.func.attr == "warning" and unparse(n.value.func.value).endswith("reporter") and flt.lineno <= n.lineno <= flt.end_lineno)
         if wst is not None:
             wseg = segment(dm.src, wst.value)
-            out.append(Mutant("c20-filter-replacement-suppressible", "C20.R1", dm.rel, splice(dm.src, wst.value, 'create_warning(document, "Raw content disabled.", MystWarnings.NOT_SUPPORTED)'), expect="replacement-not-none", canary=True))
+            out.append(Mutant("c20-filter-replacement-suppressible", "C20.R1", dm.rel, splice(dm.src, wst.value, 'create_warning(document, "Raw content disabled.", MystWarnings.NOT_SUPPORTED)'), expect="replacement-not-none"))
             out.append(Mutant("c20-filter-replacement-conditional-none", "C20.R1", dm.rel, splice(dm.src, wst.value, wseg + " if document.settings.report_level <= 2 else None"), expect="replacement-not-none"))
-            rs3 = find_node(parse, lambda n: isinstance(n, ast.Expr) and isinstance(n.value, ast.Call) and unparse(n.value.func).endswith(".parent.replace"))
-            if rs3 is not None:
+            fp = _filter_parts(parse, flt)
+            if fp["ins"] is not None and fp["rm"] is not None and fp["ins"].lineno < fp["rm"].lineno:
+                i3 = indent_of(parse, fp["ins"])
+                src3c = splice(dm.src, fp["rm"], "pass")
+                src3c = splice(src3c, fp["ins"], f"if {unparse(wst.targets[0])} is not None:\n{i3}    " + segment(dm.src, fp["ins"]) + f"\n{i3}    " + segment(dm.src, fp["rm"]))
+                src3c = splice(src3c, wst.value, 'create_warning(document, "Raw content disabled.", MystWarnings.NOT_SUPPORTED)')
+                out.append(Mutant("c20-filter-replacement-guarded-without-fallback", "C20.R1", dm.rel, src3c, expect="replacement-not-none"))
+            elif fp["replace"] is not None:
+                rs3 = fp["replace"]
                 src3c = splice(dm.src, rs3, f"if {unparse(wst.targets[0])} is not None:\n{indent_of(parse, rs3)}    " + segment(dm.src, rs3))
                 src3c = splice(src3c, wst.value, 'create_warning(document, "Raw content disabled.", MystWarnings.NOT_SUPPORTED)')
                 out.append(Mutant("c20-filter-replacement-guarded-without-fallback", "C20.R1", dm.rel, src3c, expect="replacement-not-none"))
@@ -1992,23 +2267,47 @@ def mutants(corpus: Corpus):
         if wst is not None and lp_ is not None and lp_.lineno <= wst.lineno <= lp_.end_lineno:
             # build: <warning assignment>; <loop with the assignment replaced by pass>
             loop_src = segment(dm.src, lp_).replace(segment(dm.src, wst), "pass", 1)
-            out.append(Mutant("c20-filter-shared-message-hoisted", "C20.R1", dm.rel, splice(dm.src, lp_, segment(dm.src, wst) + "\n" + indent_of(parse, lp_) + loop_src), expect="one-message-per-node", canary=True))
+            out.append(Mutant("c20-filter-shared-message-hoisted", "C20.R1", dm.rel, splice(dm.src, lp_, segment(dm.src, wst) + "\n" + indent_of(parse, lp_) + loop_src), expect="one-message-per-node"))
         # 4. extra condition
         out.append(Mutant("c20-filter-extra-condition", "C20.R1", dm.rel, splice(dm.src, flt.test, segment(dm.src, flt.test) + " and not config.gfm_only"), expect="raw filter|test"))
         loop = find_node(parse, lambda n: isinstance(n, ast.For) and "nodes.raw" in unparse(n.iter))
         if loop is not None:
-            # 5. only HTML raw is filtered
-            rs = find_node(parse, lambda n: isinstance(n, ast.Expr) and isinstance(n.value, ast.Call) and unparse(n.value.func).endswith(".parent.replace"))
-            if rs is not None:
-                ri = indent_of(parse, rs)
-                out.append(Mutant("c20-filter-html-only", "C20.R1", dm.rel, splice(dm.src, rs, f"if {loop.target.id}.get('format') == 'html':\n{ri}    " + segment(dm.src, rs)), expect="raw filter|every-node", canary=True))
-                out.append(Mutant("c20-filter-silent-removal", "C20.R1", dm.rel, splice(dm.src, rs, f"{loop.target.id}.parent.remove({loop.target.id})"), expect="raw filter|reported"))
+            # 5. only HTML raw is filtered / the node is dropped without a message
+            fp = _filter_parts(parse, flt)
+            vn_ = fp["v"]
+            if wst is not None and vn_ is not None:
+                wi5 = indent_of(parse, wst)
+                out.append(Mutant("c20-filter-html-only", "C20.R1", dm.rel, splice(dm.src, wst, f"if {vn_}.get('format') != 'html':\n{wi5}    continue\n{wi5}" + segment(dm.src, wst)), expect="raw filter|every-node"))
+            if fp["ins"] is not None and fp["rm"] is not None:
+                out.append(Mutant("c20-filter-silent-removal", "C20.R1", dm.rel, splice(dm.src, fp["ins"], "pass"), expect="raw filter|reported"))
+                # revert of 9bbd974: the message replaces the raw node in place (inside the title/paragraph)
+                srcp = splice(dm.src, fp["rm"], "pass") if fp["rm"].lineno > fp["ins"].lineno else dm.src
+                srcp = splice(srcp, fp["ins"], f"{vn_}.parent.replace({vn_}, {unparse(wst.targets[0])})")
+                if fp["rm"].lineno < fp["ins"].lineno:
+                    srcp = splice(srcp, fp["rm"], "pass")
+                out.append(Mutant("c20-filter-message-replaces-inline-node-in-place", "C20.R1", dm.rel, srcp, expect="message-placement", canary=True))
+            elif fp["replace"] is not None:
+                out.append(Mutant("c20-filter-silent-removal", "C20.R1", dm.rel, splice(dm.src, fp["replace"], f"{vn_}.parent.remove({vn_})"), expect="raw filter|reported"))
+            if fp["climb"] is not None:
+                out.append(Mutant("c20-filter-message-beside-node-without-climbing", "C20.R1", dm.rel, splice(dm.src, fp["climb"], "pass"), expect="message-placement"))
+            # revert of d017ced: only the tree is swept, not the registered footnotes
+            if fp["outer"] is not None:
+                plain_ = [e_ for e_ in fp["outer"].iter.elts if not isinstance(e_, ast.Starred)]
+                star_ = [e_ for e_ in fp["outer"].iter.elts if isinstance(e_, ast.Starred)]
+                if plain_ and star_:
+                    out.append(Mutant("c20-filter-sweeps-tree-only", "C20.R2", dm.rel, splice(dm.src, fp["outer"].iter, f"({unparse(plain_[0])},)"), expect="also sweeps document.footnotes", canary=True))
+                    if len(star_) > 1:
+                        keep_ = ", ".join(unparse(e_) for e_ in plain_ + star_[:-1])
+                        out.append(Mutant("c20-filter-sweep-misses-one-registry", "C20.R2", dm.rel, splice(dm.src, fp["outer"].iter, f"({keep_})"), expect="also sweeps document." + unparse(star_[-1].value).rsplit(".", 1)[-1]))
             # 6. not the whole document
             it = loop.iter
             trav = find_node(parse, lambda n: isinstance(n, ast.Call) and isinstance(n.func, ast.Attribute) and n.func.attr in ("traverse", "findall") and n.args and unparse(n.args[0]) == "nodes.raw")
             if trav is not None:
                 out.append(Mutant("c20-filter-no-descend", "C20.R1", dm.rel, splice(dm.src, trav, segment(dm.src, trav)[:-1] + ", descend=False)"), expect="raw filter|coverage"))
-                out.append(Mutant("c20-filter-first-section-only", "C20.R1", dm.rel, splice(dm.src, trav.func.value, segment(dm.src, trav.func.value) + "[0]"), expect="raw filter|coverage"))
+                if fp["outer"] is not None and plain_:
+                    out.append(Mutant("c20-filter-first-section-only", "C20.R1", dm.rel, splice(dm.src, plain_[0], segment(dm.src, plain_[0]) + "[0]"), expect="raw filter|coverage"))
+                else:
+                    out.append(Mutant("c20-filter-first-section-only", "C20.R1", dm.rel, splice(dm.src, trav.func.value, segment(dm.src, trav.func.value) + "[0]"), expect="raw filter|coverage"))
             # 7. invisible report
             w = find_node(parse, lambda n: isinstance(n, ast.Attribute) and n.attr == "warning" and unparse(n.value).endswith("reporter") and n.lineno >= flt.lineno)
             if w is not None:
@@ -2016,7 +2315,7 @@ def mutants(corpus: Corpus):
         # R2: a raw node appended after the filter
         fin = find_stmt(parse, lambda s: isinstance(s, ast.Expr) and isinstance(s.value, ast.Call) and unparse(s.value.func) == "self.finish_parse")
         if fin is not None:
-            out.append(Mutant("c20-raw-after-filter", "C20.R2", dm.rel, splice(dm.src, fin, f"document.append(nodes.raw('', '<!-- myst -->', format='html'))\n{ind}" + segment(dm.src, fin)), expect="after the filter", canary=True))
+            out.append(Mutant("c20-raw-after-filter", "C20.R2", dm.rel, splice(dm.src, fin, f"document.append(nodes.raw('', '<!-- myst -->', format='html'))\n{ind}" + segment(dm.src, fin)), expect="after the filter"))
     # revert of fd0f586: the Sphinx front end loses its raw filter
     sm = corpus.mod("parsers.sphinx_")
     sparse = sm.func("MystParser.parse")
@@ -2024,13 +2323,17 @@ def mutants(corpus: Corpus):
     if sflt is not None:
         out.append(Mutant("c20-sphinx-filter-reverted", "C20.R1", sm.rel, splice(sm.src, sflt, "pass"), expect="MystParser.parse|raw filter after", canary=True))
         sloop = find_node(sparse, lambda n: isinstance(n, ast.For) and "nodes.raw" in unparse(n.iter))
-        if sloop is not None and sloop.body:
-            si = indent_of(sparse, sloop.body[0])
-            v = sloop.target.id
-            lazy_iter = unparse(sloop.iter.args[0]) if isinstance(sloop.iter, ast.Call) and dotted(sloop.iter.func) in ("list", "tuple") else unparse(sloop.iter).replace(".traverse(", ".findall(")
-            src = splice(sm.src, sloop.body[0], f"if {v}.get('format') == 'latex':\n{si}    {v}.parent.remove({v})\n{si}    continue\n{si}" + segment(sm.src, sloop.body[0]))
-            src = splice(src, sloop.iter, lazy_iter)
-            out.append(Mutant("c20-sphinx-filter-lazy-removal", "C20.R1", sm.rel, src, expect="lazy-iteration"))
+        sfp = _filter_parts(sparse, sflt)
+        if sloop is not None and isinstance(sloop.iter, ast.Call) and dotted(sloop.iter.func) in ("list", "tuple") and sfp["rm"] is not None:
+            out.append(Mutant("c20-sphinx-filter-lazy-removal", "C20.R1", sm.rel, splice(sm.src, sloop.iter, unparse(sloop.iter.args[0])), expect="lazy-iteration"))
+        if sfp["ins"] is not None and sfp["rm"] is not None and sfp["wst"] is not None and sfp["rm"].lineno > sfp["ins"].lineno:
+            srcs = splice(sm.src, sfp["rm"], "pass")
+            srcs = splice(srcs, sfp["ins"], f"{sfp['v']}.parent.replace({sfp['v']}, {unparse(sfp['wst'].targets[0])})")
+            out.append(Mutant("c20-sphinx-filter-message-replaces-inline-node-in-place", "C20.R1", sm.rel, srcs, expect="message-placement"))
+        if sfp["outer"] is not None:
+            splain = [e_ for e_ in sfp["outer"].iter.elts if not isinstance(e_, ast.Starred)]
+            if splain and len(splain) < len(sfp["outer"].iter.elts):
+                out.append(Mutant("c20-sphinx-filter-sweeps-tree-only", "C20.R2", sm.rel, splice(sm.src, sfp["outer"].iter, f"({unparse(splain[0])},)"), expect="also sweeps document.footnotes"))
         swst = find_node(sparse, lambda n: isinstance(n, ast.Assign) and isinstance(n.value, ast.Call) and isinstance(n.value.func, ast.Attribute) and n.value.func.attr == "warning" and unparse(n.value.func.value).endswith("reporter") and sflt.lineno <= n.lineno <= sflt.end_lineno)
         if swst is not None:
             out.append(Mutant("c20-sphinx-filter-replacement-suppressible", "C20.R1", sm.rel, splice(sm.src, swst.value, 'create_warning(document, "Raw content disabled.", MystWarnings.NOT_SUPPORTED, line=node.line)'), expect="replacement-not-none"))
@@ -2045,10 +2348,12 @@ def mutants(corpus: Corpus):
         out.append(("c20-sphinx-filter-reverted", "no raw filter in MystParser.parse"))
     if flt is not None:
         dloop = find_node(parse, lambda n: isinstance(n, ast.For) and "nodes.raw" in unparse(n.iter))
-        drs = find_node(parse, lambda n: isinstance(n, ast.Expr) and isinstance(n.value, ast.Call) and unparse(n.value.func).endswith(".parent.replace"))
-        if dloop is not None and drs is not None:
+        dfp = _filter_parts(parse, flt)
+        if dloop is not None and isinstance(dloop.iter, ast.Call) and dotted(dloop.iter.func) in ("list", "tuple") and dfp["rm"] is not None:
+            out.append(Mutant("c20-filter-lazy-findall-with-removal", "C20.R1", dm.rel, splice(dm.src, dloop.iter, unparse(dloop.iter.args[0])), expect="lazy-iteration"))
+        elif dloop is not None and dfp["replace"] is not None:
             v = dloop.target.id
-            src = splice(dm.src, drs, f"{v}.parent.remove({v})\n{indent_of(parse, drs)}document.append(warning)")
+            src = splice(dm.src, dfp["replace"], f"{v}.parent.remove({v})\n{indent_of(parse, dfp['replace'])}document.append(warning)")
             src = splice(src, dloop.iter, unparse(dloop.iter).replace(".traverse(", ".findall("))
             out.append(Mutant("c20-filter-lazy-findall-with-removal", "C20.R1", dm.rel, src, expect="lazy-iteration"))
         fin2 = find_stmt(parse, lambda s: isinstance(s, ast.Expr) and isinstance(s.value, ast.Call) and unparse(s.value.func) == "self.finish_parse")
@@ -2119,7 +2424,7 @@ def mutants(corpus: Corpus):
     rs_f = base.func("DocutilsRenderer.render_s")
     first_s = next((st for st in rs_f.node.body if not (isinstance(st, ast.Expr) and isinstance(st.value, ast.Constant))), None)
     if first_s is not None:
-        out.append(Mutant("c20-raw-switched-on-for-own-nodes", "C20.R5", base.rel, splice(base.src, first_s, "self.document.settings.raw_enabled = True\n" + indent_of(rs_f, first_s) + segment(base.src, first_s)), expect="sets raw_enabled", canary=True))
+        out.append(Mutant("c20-raw-switched-on-for-own-nodes", "C20.R5", base.rel, splice(base.src, first_s, "self.document.settings.raw_enabled = True\n" + indent_of(rs_f, first_s) + segment(base.src, first_s)), expect="sets raw_enabled"))
     dd = find_node(dm.func("to_html5_demo"), lambda n: isinstance(n, ast.Dict) and any(is_const(k, "output_encoding") for k in n.keys))
     if dd is not None:
         out.append(Mutant("c20-demo-overrides-file-insertion", "C20.R5", dm.rel, splice(dm.src, dd, segment(dm.src, dd).rstrip()[:-1] + '    "file_insertion_enabled": True,\n    }'), expect="sets file_insertion_enabled"))
@@ -2127,6 +2432,14 @@ def mutants(corpus: Corpus):
     g5 = find_node(inc_run, lambda n: isinstance(n, ast.If) and _mentions_setting(n.test, "file_insertion_enabled", inc_run))
     if g5 is not None:
         out.append(Mutant("c20-include-mock-setattr-switch", "C20.R5", mk.rel, splice(mk.src, g5, 'setattr(self.document.settings, "file_insertion_enabled", True)\n' + indent_of(inc_run, g5) + segment(mk.src, g5)), expect="sets file_insertion_enabled"))
+    # R6: revert of e6abf42 - substitutions evaluated without a sandbox
+    rsub = base.func("DocutilsRenderer.render_substitution")
+    envc = find_node(rsub, lambda n: isinstance(n, ast.Call) and (dotted(n.func) or "").endswith("SandboxedEnvironment"))
+    if envc is not None:
+        out.append(Mutant("c20-substitution-environment-not-sandboxed", "C20.R6", base.rel, splice(base.src, envc.func, "jinja2.Environment"), expect="render_substitution", canary=True))
+        out.append(Mutant("c20-substitution-native-environment", "C20.R6", base.rel, splice(base.src, envc.func, "jinja2.nativetypes.NativeEnvironment"), expect="render_substitution"))
+    else:
+        out.append(("c20-substitution-environment-not-sandboxed", "no SandboxedEnvironment(...) in render_substitution"))
     # R4
     rr = base.func("DocutilsRenderer.render_restructuredtext")
     st = find_stmt(rr, lambda s: isinstance(s, ast.Assign) and unparse(s.targets[0]).endswith(".settings"))
